@@ -61,6 +61,10 @@ type vrCase struct {
 }
 
 const vrModelCallBudget = 40
+const vrCaseTimeout = 10 * time.Second
+const vrMaxHangs = 10
+
+var vrHangs int32
 
 type vrRun struct {
 	c      *vrCase
@@ -448,14 +452,19 @@ func TestVerifReact(t *testing.T) {
 				if i >= len(cases) {
 					return
 				}
+				if atomic.LoadInt32(&vrHangs) >= vrMaxHangs {
+					return
+				}
 				done := make(chan []string, 1)
 				go func(c *vrCase) { done <- vrRunCase(c) }(cases[i])
 				select {
 				case ls := <-done:
 					results[i] = ls
-				case <-time.After(20 * time.Second):
+				case <-time.After(vrCaseTimeout):
+					// the agent does not stop (nor fail): recorded as the observation `hang`; its goroutines are abandoned
+					atomic.AddInt32(&vrHangs, 1)
 					results[i] = []string{`{"ev":"case","id":` + vrJSON(cases[i].ID) + `,"msgs":[],"script":[],"tools":[],"rd":[],"maxstep":0,"modifier":false}`,
-						`{"ev":"note","text":"case timed out (agent hangs)"}`, `{"ev":"end"}`}
+						`{"ev":"hang","after_ms":` + vrJSON(int(vrCaseTimeout/time.Millisecond)) + `}`, `{"ev":"end"}`}
 				}
 			}
 		}()
@@ -466,7 +475,11 @@ func TestVerifReact(t *testing.T) {
 		t.Fatal(err)
 	}
 	w := bufio.NewWriter(of)
+	replayed := 0
 	for _, ls := range results {
+		if ls != nil {
+			replayed++
+		}
 		for _, l := range ls {
 			w.WriteString(l)
 			w.WriteString("\n")
@@ -474,5 +487,5 @@ func TestVerifReact(t *testing.T) {
 	}
 	w.Flush()
 	of.Close()
-	fmt.Printf("VERIF-REACT cases=%d\n", len(cases))
+	fmt.Printf("VERIF-REACT cases=%d replayed=%d hangs=%d\n", len(cases), replayed, atomic.LoadInt32(&vrHangs))
 }
